@@ -225,6 +225,17 @@ def factory_closure(prog: Program, fac: FuncInfo) -> FuncInfo:
     if len(inner) == 1:
         return inner[0]
     if not inner:
+        # the factory may hand out an instance of a callable class instead of a closure: return C(base)  ->  C.__call__
+        from ..loader import ClassInfo
+
+        for r in prog.flow(fac).cfg.returns():
+            v = r.ast.value
+            if isinstance(v, ast.Call) and isinstance(v.func, (ast.Name, ast.Attribute)):
+                ci = prog.repo.resolve_expr(v.func, fac.module, fac)
+                if isinstance(ci, ClassInfo):
+                    m = prog.repo.find_method(ci, "__call__")
+                    if m is not None:
+                        return m
         raise AnalysisError(f"{fac.qual} defines no inner function")
     flow = prog.flow(fac)
     names: set[str] = set()
@@ -258,3 +269,33 @@ def deep_origins(prog: Program, fi: FuncInfo, expr: ast.AST | None, node: Node, 
         else:
             out.add(o)
     return frozenset(out)
+
+
+
+def base_call_predicate(prog: Program, fac: FuncInfo, w: FuncInfo):
+    """How the wrapper `w` handed out by factory `fac` calls the wrapper it decorates: as the captured parameter of the
+    factory (closure) or as the attribute the factory's argument was stored in (callable class). Returns a predicate on calls."""
+    names = set(fac.params)
+    attrs: set[str] = set()
+    if w.cls is not None and w.params:
+        from ..loader import ClassInfo
+
+        ci = w.cls
+        fields = [st.target.id for st in ci.node.body if isinstance(st, ast.AnnAssign) and isinstance(st.target, ast.Name)]
+        init = prog.repo.find_method(ci, "__init__")
+        ctor_params = list(init.params[1:]) if init is not None and init.cls is ci else fields
+        for r in prog.flow(fac).cfg.returns():
+            v = r.ast.value
+            if isinstance(v, ast.Call) and prog.repo.resolve_expr(v.func, fac.module, fac) is ci:
+                for p, a in list(zip(ctor_params, v.args)) + [(k.arg, k.value) for k in v.keywords if k.arg]:
+                    if isinstance(a, ast.Name) and a.id in names:
+                        attrs.add(p)
+        selfname = w.params[0]
+
+        def pred(c: ast.Call) -> bool:
+            return isinstance(c.func, ast.Attribute) and isinstance(c.func.value, ast.Name) and c.func.value.id == selfname and c.func.attr in attrs
+        return pred
+
+    def pred(c: ast.Call) -> bool:  # type: ignore[misc]
+        return isinstance(c.func, ast.Name) and c.func.id in names
+    return pred
